@@ -311,6 +311,63 @@ func totalRun(args []string) error {
 			}
 		}
 	}
+	// (4b) signed bundles whose SIGNED content is unusual but validly signed (the verifier trusts the signature, then has to
+	// cope with what was signed): digests of every length 0..40, odd integrity strings, variants values, extra URLs
+	for _, ver := range []bversion.Version{bversion.VersionB1, bversion.VersionB2} {
+		for variant := 0; variant < 48; variant++ {
+			b := &bundle.Bundle{Version: ver}
+			u, _ := url.Parse("https://a.example/")
+			b.PrimaryURL = u
+			b.Exchanges = []*bundle.Exchange{{Request: bundle.Request{URL: u}, Response: bundle.Response{Status: 200, Header: map[string][]string{"Content-Type": {"text/html"}}, Body: []byte("body")}}}
+			kcb := newKeyCert("p256", []string{"a.example"}, 0)
+			ch, _ := certurl.NewCertChain(kcb.certs, []byte("ocsp"), nil)
+			vu, _ := url.Parse("https://a.example/validity")
+			sg, err := signature.NewSigner(ver, ch, kcb.key, vu, time.Unix(1600000000-10, 0), time.Hour)
+			if err != nil {
+				return err
+			}
+			pih, err := b.Exchanges[0].AddPayloadIntegrity(ver, 16)
+			if err != nil {
+				return err
+			}
+			if err := sg.AddExchange(b.Exchanges[0], pih); err != nil {
+				return err
+			}
+			for _, rh := range sg.SignedSubset.SubsetHashes {
+				switch {
+				case variant <= 40:
+					rh.Hashes[0].HeaderSha256 = rh.Hashes[0].HeaderSha256[:0:0]
+					rh.Hashes[0].HeaderSha256 = append(rh.Hashes[0].HeaderSha256, bytes.Repeat([]byte{0xab}, variant)...)
+				case variant == 41:
+					rh.Hashes[0].PayloadIntegrityHeader = ""
+				case variant == 42:
+					rh.Hashes[0].PayloadIntegrityHeader = "digest/mi-sha256-03, x"
+				case variant == 43:
+					rh.VariantsValue = []byte("Accept-Language;en;fr")
+				case variant == 44:
+					rh.Hashes = append(rh.Hashes, rh.Hashes[0])
+				case variant == 45:
+					rh.Hashes = nil
+				case variant == 46:
+					rh.Hashes[0].HeaderSha256 = nil
+				}
+			}
+			if variant == 47 {
+				sg.SignedSubset.SubsetHashes["https://a.example/other"] = &signature.ResponseHashes{}
+			}
+			sigs, err := sg.UpdateSignatures(nil)
+			if err != nil {
+				continue
+			}
+			b.Signatures = sigs
+			f, _, werr, _ := writeBundle(b, "plain")
+			if werr != nil {
+				continue
+			}
+			fn := parsers["bundle.Read"]
+			c.measure("bundle.Read", fmt.Sprintf("validly signed unusual subset %s #%d", ver, variant), f, func() error { return fn(f) })
+		}
+	}
 	// (5) VALID signed exchanges (signed here, verifiable by the parser's certificate at its fixed instant) over every status
 	// and a few header sets: the verifier's later stages (acceptance policy) are reachable only past the signature check
 	for _, ver := range version.AllVersions {
